@@ -133,10 +133,14 @@ def judge (c out : List String) : Verdict :=
         let isListing := listing sups recs ℓ == text.toList && wfListing sups recs ℓ
         let want := report (.ok (expectedMap sups recs))
         let j := rest == want && someDecoded (expectedMap sups recs) && namesNodup recs
-        { corr := rest == m, judge := if isListing then some j else none,
+        -- the sample must BE a listing (re-rendering gives the file back, `wfListing` holds): otherwise FAIL
+        { corr := rest == m, judge := some (isListing && j),
           cls := if isListing then "file/" ++ sizeClass recs.length ++ "/spaces/decoded" else "file/not-a-listing",
-          detail := if rest == m && j then "" else lineOf (m.take 40) }
-      | none => { corr := rest == m, judge := none, cls := "file/not-a-listing", detail := "" }
+          detail := if rest == m && isListing && j then "" else
+                    (if isListing then "" else "the sample file is not `listing sups recs l` for the content the recogniser extracts; ")
+                    ++ lineOf (m.take 40) }
+      | none => { corr := rest == m, judge := some false, cls := "file/not-a-listing",
+                  detail := "the sample file is not in the shape of a format-31 listing (recogniser failed)" }
     | _ => { corr := false, judge := some false, cls := "file/unreadable", detail := "the sample file could not be read" }
   | ["readmissing", _] =>
     { corr := out == ["ok", "error", "0"], judge := some (out == ["ok", "error", "0"]), cls := "triv:read-missing", detail := "" }
